@@ -155,12 +155,12 @@ SH14 = [{"doc": d, "gated": g, "cgated": c, "maxlen": m} for m in (2, 3) for d i
 
 
 @obligation(tier="quick", timeout=300, shards=SH14, quick_shards=[i for i, s in enumerate(SH14) if s["maxlen"] == 2 and ((s["gated"] and s["cgated"]) or s["doc"] == 0)],
-            samples=[{"events": [1, None, -1], "arg": 3, "argmode": 1, "gated": True, "cgated": False}, {"events": [], "arg": None, "argmode": 0, "gated": False, "cgated": True}],
+            samples=[{"events": [1, None, -1], "arg": 3, "argmode": 1, "gated": True, "cgated": False, "withiv": True}, {"events": [], "arg": None, "argmode": 0, "gated": False, "cgated": True, "withiv": False}],
             symbolic=["events: List[Optional[int]] (length 0..3, unbounded ints)", "arg: Optional[int] — variable value of the source argument"],
-            selectors=["argmode: variable absent / provided", "gated: the source suspends before every event", "cgated: the consumer suspends between responses (interleaved consumption)", "shard: document"],
+            selectors=["withiv: subscribe(initial_value=...) given or not", "argmode: variable absent / provided", "gated: the source suspends before every event", "cgated: the consumer suspends between responses (interleaved consumption)", "shard: document"],
             bounds="events <= 3",
             note="one response per event, in order, each equal to executing the selection on that payload; erroring events do not end the stream; the source is started once with the coerced arguments")
-def c14_stream(events: List[Optional[int]], arg: Optional[int], argmode: int, gated: bool, cgated: bool) -> bool:
+def c14_stream(events: List[Optional[int]], arg: Optional[int], argmode: int, gated: bool, cgated: bool, withiv: bool = False) -> bool:
     """
     pre: len(events) <= 3
     post: _
@@ -177,7 +177,9 @@ def c14_stream(events: List[Optional[int]], arg: Optional[int], argmode: int, ga
         return True
     ST["events"] = events; ST["gate"] = bool(sh["gated"])
     del SRC_CALLS[:]; del RES_CALLS[:]
-    ok, got = safe(lambda: env.run(consume(ENG.subscribe(q, variables=variables, operation_name=OPNAME.get(sh["doc"])), bool(sh["cgated"]))))
+    # `initial_value` is the parent handed to the SOURCE; every response is computed against its own event, a null event included
+    iv = {"tick": 77, "t": 77, "plain": 77, "p": 77, "n": 77, "leaf": {"n": 77}, "strict": 77, "s": 77} if pickb(withiv) else None
+    ok, got = safe(lambda: env.run(consume(ENG.subscribe(q, variables=variables, operation_name=OPNAME.get(sh["doc"]), initial_value=iv), bool(sh["cgated"]))))
     observe(got, list(SRC_CALLS))
     if not ok:
         return verdict(False)
